@@ -80,7 +80,7 @@ def gen_values(rnd, n, style, lo=-5.0, hi=5.0):
     return out
 
 
-def gen_source(rnd, size_class, allow_empty):
+def gen_source(rnd, size_class, allow_empty, allow_extreme=True):
     if size_class == "tiny":
         npos, nneg = rnd.randint(1, 5), rnd.randint(1, 5)
     elif size_class == "small":
@@ -113,6 +113,14 @@ def gen_source(rnd, size_class, allow_empty):
         "size_class": size_class,
         "style": style,
     }
+    if spec["dtype"] == "float64" and style in ("unique", "ties") and rnd.random() < 0.04 and allow_extreme:
+        # magnitudes at which sums, squares and differences start to lose precision or overflow
+        kind_ = rnd.choice(["huge", "tiny", "offset", "negative_huge"])
+        f_ = {"huge": lambda v: v * 1e100, "tiny": lambda v: v * 1e-100, "offset": lambda v: 1e12 + v,
+              "negative_huge": lambda v: -1e100 + v * 1e90}[kind_]
+        spec["pos"] = [f_(v) for v in spec["pos"]]
+        spec["neg"] = [f_(v) for v in spec["neg"]]
+        spec["style"] = "extreme"
     if rnd.random() < 0.12 and not spec["presorted"]:
         spec["via"] = "from_labels"
         spec["pos_label"] = rnd.choice([1, 1, "p", True, 2])
